@@ -36,10 +36,12 @@ def fn_table(unit_text):
         m = FN_RE.match(line)
         if m and (line.startswith("    ") or not line.startswith(" ")):
             indent = len(line) - len(line.lstrip())
-            if indent == 0:
+            if indent == 0 and not owner:
                 cur = m.group(2)
-            elif indent == 4 and owner:
+            elif indent <= 5 and owner:
                 cur = owner + "::" + m.group(2)
+            elif indent == 0:
+                cur = m.group(2)
         table.append(cur)
     return table
 
@@ -104,7 +106,10 @@ def run_unit(repo, overlay_path, scratch, threads=8, rlimit=None, extra_args=(),
     unit_text = open(unit_file).read()
     table = fn_table(unit_text)
     vr = (js or {}).get("verification-results")
-    if not js or not vr or vr.get("encountered-vir-error") or "verified" not in vr:
+    front_end_failed = (not js or not vr or vr.get("encountered-vir-error") or "verified" not in vr
+                        or "times-ms" not in js
+                        or (vr.get("encountered-error") and vr.get("verified", 0) == 0 and vr.get("errors", 0) == 0))
+    if front_end_failed:
         errs = [d for d in diags if d["level"] == "error"]
         res["compile_errors"] = [{"msg": d["msg"], "line": d["line"], "text": d["text"][:2000]} for d in errs[:10]]
         res.update(status="undecided", reason="verus front end rejected the unit (unsupported construct or annotation no longer type-checks): %s"
